@@ -136,10 +136,12 @@ def rule_quant_contributes(db: ProgramDB) -> List[Instance]:
     out = []
     fn = db.fn("entity:_extract_variables_and_expression")
     loops = [l for l in own_nodes(fn.node) if isinstance(l, ast.For)]
-    arms = [i for l in loops for i in ast.walk(l) if isinstance(i, ast.If) and "ResultQuantifier" in unparse(i.test)]
-    if not arms:
+    from ..boolexpr import regions_guarded_by
+    regions = [(i, body) for l in loops for i, body in regions_guarded_by(l, lambda t: "ResultQuantifier" in unparse(t))]
+    if not regions:
         raise AnalysisError("_extract_variables_and_expression: no arm for a selected quantifier")
-    arm = arms[0]
+    arm = ast.Module(body=regions[0][1], type_ignores=[])          # the statements that run for a selected quantifier
+    arm.lineno = regions[0][0].lineno
     appended = [c for c in ast.walk(arm) if isinstance(c, ast.Call) and call_attr(c) in ("append", "add", "insert") and isinstance(c.func.value, ast.Name)]
     lists = {c.func.value.id for c in appended}
     # the list that receives the quantifier reaches the and_(...) / single-expression result
@@ -294,14 +296,17 @@ def rule_quant_not_stripped(db: ProgramDB) -> List[Instance]:
     for fn in sorted(db.all_functions(), key=lambda f: f.qualname):
         if fn.cls is not None and (fn.cls is rq or fn.cls.is_subclass_of(rq)):
             continue        # the quantifier's own methods speak about `self`
-        for arm in [i for i in own_nodes(fn.node) if isinstance(i, ast.If)]:
-            t = arm.test
-            if not (isinstance(t, ast.Call) and dotted(t.func) == "isinstance" and len(t.args) == 2 and isinstance(t.args[0], ast.Name)):
-                continue
-            classes = {unparse(e) for e in (t.args[1].elts if isinstance(t.args[1], ast.Tuple) else [t.args[1]])}
-            if not classes & qnames:
-                continue
+        from ..boolexpr import regions_guarded_by
+
+        def is_quant_test(t):
+            return isinstance(t, ast.Call) and dotted(t.func) == "isinstance" and len(t.args) == 2 and isinstance(t.args[0], ast.Name) and \
+                bool({unparse(e) for e in (t.args[1].elts if isinstance(t.args[1], ast.Tuple) else [t.args[1]])} & qnames)
+        for if_st, body in regions_guarded_by(fn.node, is_quant_test):
+            t = if_st.test
+            while isinstance(t, ast.UnaryOp) and isinstance(t.op, ast.Not):
+                t = t.operand
             x = t.args[0].id
+            arm = ast.Module(body=body, type_ignores=[])
             strips = [a for s in arm.body for a in ast.walk(s) if isinstance(a, ast.Assign) and any(isinstance(tg, ast.Name) and tg.id == x for tg in a.targets)
                       and any(isinstance(v, ast.Attribute) and isinstance(v.value, ast.Name) and v.value.id == x and v.attr in ("_var_", "selected_variable", "_child_")
                               for v in ast.walk(a.value))]
